@@ -14,7 +14,9 @@ RULE = ("for every commit of generated histories (root, ordinary, partial, amend
         "distinct = (commit kind, #files, #sessions, has-ignored, has-binary) signatures")
 
 IGNORED = ["Cargo.lock", "pkg/yarn.lock", "web/app.min.js", "tests/__snapshots__/a.snap", "vendor/x/lib.c", "api.generated.ts", "go.sum",
-           "node_modules/left-pad/index.js", "tests/__snapshots__/util.py", "pkg/vendor/acme/main.rs", "web/node_modules/x/y/style.css"]
+           "node_modules/left-pad/index.js", "tests/__snapshots__/util.py", "pkg/vendor/acme/main.rs", "web/node_modules/x/y/style.css",
+           # ignored files whose paths git prints C-quoted in --numstat output (non-ASCII under the default core.quotePath; a double quote always)
+           "föo.lock", "dír/package-lock.json", 'we"ird/yarn.lock']
 # files ignored because of the DIRECTORY they are in, each with a counted file of the same base name elsewhere in the tree
 TWINS = {"vendor/x/lib.c": "src/lib.c", "node_modules/left-pad/index.js": "src/index.js", "tests/__snapshots__/util.py": "lib/util.py",
          "pkg/vendor/acme/main.rs": "pkg/src/main.rs", "web/node_modules/x/y/style.css": "web/style.css"}
